@@ -337,6 +337,27 @@ func ruleAtomicRemove(c *Ctx, rule string) {
 		fn := w.Func("allocation", "Allocation", s.fn)
 		fld := w.Field("allocation", "Allocation", s.field)
 		c.Anchor(rule, s.fn)
+		// the find-and-remove may sit in a helper of its own (unlink(k) returning the element
+		// taken out): the obligation is that helper's
+		{
+			has := func(g *ssa.Function) bool {
+				n := 0
+				w.eachInstr(g, func(in ssa.Instruction) {
+					if fa, ok := in.(*ssa.FieldAddr); ok && fieldOf(fa) == fld && fieldAddrIsWritten(fa) {
+						n++
+					}
+				})
+				return n > 0
+			}
+			if !has(fn) {
+				for _, h := range w.helpersOf(fn) {
+					if h != fn && h.Parent() == nil && has(h) {
+						fn = h
+						break
+					}
+				}
+			}
+		}
 		// lock/unlock calls of the class
 		var locks, unlocks []ssa.Instruction
 		w.eachInstr(fn, func(in ssa.Instruction) {
@@ -767,7 +788,12 @@ func everyPathPassesBefore(w *World, fn *ssa.Function, at ssa.Instruction, hit f
 	ok := true
 	reached := false
 	cfg := &ipCfg[bool]{w: w}
-	cfg.Inline = func(ssa.CallInstruction, *ssa.Function) bool { return false }
+	// helpers that may do the thing are entered: `e := unlink(k); if e == nil { return }`
+	// passes the removal exactly on the paths on which the helper returned an element
+	may := w.mayContain(hit)
+	cfg.Inline = func(_ ssa.CallInstruction, h *ssa.Function) bool {
+		return w.IsMod[h] && len(h.Blocks) > 0 && fnPkgPath(h) == fnPkgPath(fn) && may(h)
+	}
 	cfg.Step = func(in ssa.Instruction, done bool, _ *pathEnv, _ []ssa.CallInstruction) bool {
 		if in == at {
 			reached = true
